@@ -107,7 +107,9 @@ for _p, _q, _t, _m in (('C01', 5000, 120000, 300), ('C07', 5000, 120000, 300), (
 CHECKS['C10'] = dict(stages=_rt('C10', 12000, 240000, 300, free=False), assumptions=_rt_assume)
 CHECKS['C20'] = dict(stages=_rt('C20', 5000, 120000, 300), assumptions=_rt_assume + [
     'the statistics file is read by an independent reader written from the layout tables in the documentation of log/stats.c',
-    'runs stopped by RootsimStop may differ by one record between threads (stats.c: equal counts hold in a correctly completed simulation)'])
+    'runs stopped by RootsimStop may differ by one record between threads (stats.c: equal counts hold in a correctly completed simulation)',
+    'multi-rank files: node records are matched to ranks by position (rank 0 first, then in the order stats_files_receive() collects them); '
+    'equal record counts are demanded per node and its threads, not across nodes'])
 CHECKS['C05']['stages'].append(_rt('C05', 4000, 80000, 100, free=False)[0])
 CHECKS['C14']['stages'].append(_rt('C14', 2000, 40000, 100, free=False)[0])
 
